@@ -58,7 +58,7 @@ class Machine:
         except (IndexError, ValueError, TypeError, KeyError) as e:
             obs = {"err": type(e).__name__}
         delta = self.log[mark:]
-        if op in ("index", "iter"):
+        if op in ("index", "iter", "iter_first"):
             if "err" in obs:
                 if delta:
                     obs["unexpected_calls"] = delta
@@ -115,7 +115,11 @@ class Machine:
         if op == "concat_plain":
             k, first = a[1], a[2]
             plain = [(first + i, ()) for i in range(k)]
-            return self._new(L[a[0]] + plain)
+            r = L[a[0]] + plain
+            # the ordinary list is the caller's: what it is made to hold afterwards must not reach the lazy list
+            plain[:] = [(987654, ())] * k
+            plain.append((987655, ()))
+            return self._new(r)
         if op == "copy":
             return self._new(L[a[0]].copy())
         if op == "len":
@@ -127,6 +131,8 @@ class Machine:
             return {"val": self.term(L[a[0]][k])}
         if op == "iter":
             return {"vals": [self.term(t) for t in L[a[0]]]}
+        if op == "iter_first":
+            return {"val": self.term(next(iter(L[a[0]])))}
         raise ValueError("unknown op " + op)
 
     def final(self):
